@@ -32,6 +32,9 @@ def main():
             seeds = a[1].split(",")
         a = a[2:]
     meta = json.load(open(os.path.join(src, "meta.json")))
+    history = meta.pop("history", [])
+    if "verification" in meta:  # re-verification: keep the earlier result in the history
+        history.append(dict(verification=meta.pop("verification"), caught_by=meta.pop("caught_by", None)))
     if checks is None:
         checks = [meta.get("property", name.split("-")[0])]
     wt = "/tmp/sv-" + name
@@ -63,7 +66,7 @@ def main():
             ver["patch_output"] = out[-800:]
             raise SystemExit
         os.rename(demo_dst, demo_dst + ".off")
-        rc, out = sh("go build ./... && python3 /verif/tools/baseline.py %s" % wt, cwd=wt)
+        rc, out = sh("go build ./pkg/... && python3 /verif/tools/baseline.py %s" % wt, cwd=wt)
         ver["baseline_with_patch"] = "pass" if rc == 0 else "FAIL"
         ver["baseline_line"] = [l for l in out.splitlines() if l.startswith("baseline:")][-1:] or out[-500:]
         os.rename(demo_dst + ".off", demo_dst)
@@ -95,8 +98,11 @@ def main():
     dst = os.path.join("/verif/seeded", name)
     os.makedirs(dst, exist_ok=True)
     for f in ("patch.diff", "demo_test.go"):
-        shutil.copy(os.path.join(src, f), os.path.join(dst, f))
+        if os.path.abspath(os.path.join(src, f)) != os.path.abspath(os.path.join(dst, f)):
+            shutil.copy(os.path.join(src, f), os.path.join(dst, f))
     meta["verification"] = ver
+    if history:
+        meta["history"] = history
     caught = [k for k, v in ver.get("checks", {}).items() if v["exit"] == 1]
     meta["caught_by"] = caught
     json.dump(meta, open(os.path.join(dst, "meta.json"), "w"), indent=1, ensure_ascii=False)
